@@ -8,13 +8,15 @@ package rest
 // A raw BlipTester (no BlipTesterClient: the client must hold the reply to a `rev` message) connects with the V2 and the V3
 // sub-protocol (V2 keys the allow-list by digest, V3 by document + digest).  Four documents are written through the REST API:
 //   d1 {a1: c1, a2: c2}   d2 {b1: c3, b2: c1}   d3 {x: c2}   d4 (no attachments)       (c1 shared by d1 and d2, c2 by d1 and d3)
-// Then, one document at a time (one-shot subChanges with a docIDs filter, so that exactly one revision is in flight):
+// Every document is pulled TWICE: the first time the client answers the `rev` message with an ERROR (it "could not store the
+// revision": the revision is no longer being sent, the window must close exactly as after a successful reply), the second time with success.
+// One document at a time (one-shot subChanges with a docIDs filter, so that exactly one revision is in flight):
 //   before   getAttachment for every (document, digest) pair and for a digest nobody has
 //   during   the same probes from inside the `rev` handler, before the reply to the `rev` message is sent
 //   after    the reply is sent; the harness polls the pulled document's own digest until the gateway refuses it (the window is
-//            closed by the goroutine that waits for the reply; bound 10 s) and then probes everything again
-// Logged: Reset (protocol, which document carries which contents), Rev (document in flight), Ack (reply sent; closed = the
-// window was seen closed), Get (phase, document, content, outcome, content of the bytes served).  No property is asserted here.
+//            closed by the goroutine that waits for the reply; bound 6 s) and then probes everything again
+// Logged: Reset (protocol, which document carries which contents), Rev (document in flight), Ack / Rej (success / error reply sent;
+// closed = the window was seen closed), Get (phase, document, content, outcome, content of the bytes served).  No property is asserted here.
 
 import (
 	"bytes"
@@ -128,75 +130,85 @@ func TestVerif_C14_BlipAllowList(t *testing.T) {
 		h.probes("before", 0)
 
 		for d := 1; d < len(h.docs); d++ {
-			d := d
-			var revWg, changesWg sync.WaitGroup
-			gotRev := false
-			bt.blipContext.HandlerForProfile["changes"] = func(request *blip.Message) {
-				body, err := request.Body()
-				if err != nil {
-					t.Fatalf("VERIF-FATAL C14 blip: changes body: %v", err)
-				}
-				if string(body) == "null" {
-					changesWg.Done()
-					return
-				}
-				if !request.NoReply() {
-					batch := [][]any{}
-					if err := base.JSONUnmarshal(body, &batch); err != nil {
-						t.Fatalf("VERIF-FATAL C14 blip: changes: %v", err)
+			for _, reject := range []bool{true, false} {
+				d, reject := d, reject
+				var revWg, changesWg sync.WaitGroup
+				gotRev := false
+				bt.blipContext.HandlerForProfile["changes"] = func(request *blip.Message) {
+					body, err := request.Body()
+					if err != nil {
+						t.Fatalf("VERIF-FATAL C14 blip: changes body: %v", err)
 					}
-					want := [][]any{}
-					for range batch {
-						want = append(want, []any{})
-						revWg.Add(1)
+					if string(body) == "null" {
+						changesWg.Done()
+						return
 					}
-					response := request.Response()
-					response.SetBody(base.MustJSONMarshal(t, want))
-				}
-			}
-			bt.blipContext.HandlerForProfile["rev"] = func(request *blip.Message) {
-				defer revWg.Done()
-				docID := request.Properties["id"]
-				if docID != h.docs[d] {
-					t.Errorf("VERIF-FATAL C14 blip: rev for %s while pulling %s", docID, h.docs[d])
-					return
-				}
-				gotRev = true
-				tw.Emit(vObj{"a": "Rev", "d": d, "noreply": request.NoReply()})
-				h.probes("during", d)
-				if !request.NoReply() {
-					response := request.Response()
-					response.SetBody([]byte{})
-				}
-			}
-			bt.blipContext.HandlerForProfile["norev"] = func(request *blip.Message) { revWg.Done() }
-			changesWg.Add(1)
-			sub := blip.NewRequest()
-			sub.SetProfile("subChanges")
-			sub.Properties["continuous"] = "false"
-			sub.SetBody(base.MustJSONMarshal(t, map[string]any{"docIDs": []string{h.docs[d]}}))
-			bt.addCollectionProperty(sub)
-			bt.Send(sub)
-			changesWg.Wait()
-			revWg.Wait()
-			if !gotRev {
-				t.Fatalf("VERIF-FATAL C14 blip: no rev message for %s", h.docs[d])
-			}
-			// the window is closed by the goroutine that waits for our reply: poll the document's own first digest
-			closed := true
-			if len(carries[d]) > 0 {
-				closed = false
-				deadline := time.Now().Add(10 * time.Second)
-				for time.Now().Before(deadline) {
-					if res, _ := h.get(d, carries[d][0]); res != "ok" {
-						closed = true
-						break
+					if !request.NoReply() {
+						batch := [][]any{}
+						if err := base.JSONUnmarshal(body, &batch); err != nil {
+							t.Fatalf("VERIF-FATAL C14 blip: changes: %v", err)
+						}
+						want := [][]any{}
+						for range batch {
+							want = append(want, []any{})
+							revWg.Add(1)
+						}
+						response := request.Response()
+						response.SetBody(base.MustJSONMarshal(t, want))
 					}
-					time.Sleep(2 * time.Millisecond)
 				}
+				bt.blipContext.HandlerForProfile["rev"] = func(request *blip.Message) {
+					defer revWg.Done()
+					docID := request.Properties["id"]
+					if docID != h.docs[d] {
+						t.Errorf("VERIF-FATAL C14 blip: rev for %s while pulling %s", docID, h.docs[d])
+						return
+					}
+					gotRev = true
+					tw.Emit(vObj{"a": "Rev", "d": d, "noreply": request.NoReply()})
+					h.probes("during", d)
+					if !request.NoReply() {
+						response := request.Response()
+						if reject {
+							response.SetError("HTTP", 500, "c14: client could not store the revision")
+						} else {
+							response.SetBody([]byte{})
+						}
+					}
+				}
+				bt.blipContext.HandlerForProfile["norev"] = func(request *blip.Message) { revWg.Done() }
+				changesWg.Add(1)
+				sub := blip.NewRequest()
+				sub.SetProfile("subChanges")
+				sub.Properties["continuous"] = "false"
+				sub.SetBody(base.MustJSONMarshal(t, map[string]any{"docIDs": []string{h.docs[d]}}))
+				bt.addCollectionProperty(sub)
+				bt.Send(sub)
+				changesWg.Wait()
+				revWg.Wait()
+				if !gotRev {
+					t.Fatalf("VERIF-FATAL C14 blip: no rev message for %s", h.docs[d])
+				}
+				// the window is closed by the goroutine that waits for our reply: poll the document's own first digest
+				closed := true
+				if len(carries[d]) > 0 {
+					closed = false
+					deadline := time.Now().Add(6 * time.Second)
+					for time.Now().Before(deadline) {
+						if res, _ := h.get(d, carries[d][0]); res != "ok" {
+							closed = true
+							break
+						}
+						time.Sleep(2 * time.Millisecond)
+					}
+				}
+				ev := "Ack"
+				if reject {
+					ev = "Rej"
+				}
+				tw.Emit(vObj{"a": ev, "d": d, "closed": closed})
+				h.probes("after", 0)
 			}
-			tw.Emit(vObj{"a": "Ack", "d": d, "closed": closed})
-			h.probes("after", 0)
 		}
 		delete(bt.blipContext.HandlerForProfile, "changes")
 		delete(bt.blipContext.HandlerForProfile, "rev")
